@@ -11,6 +11,9 @@ CONSTANTS
   WithUpd = TRUE
   MaxMut = 1
   MaxLife = 2
+  LifeFrom = 0
+  EmitSel = "all"
+  MixedUpd = FALSE
   EmitOn = TRUE
 INIT MCInit
 NEXT MCNext
